@@ -55,13 +55,16 @@ def handler(c):
     op = c['op']
     try:
         if op == 'sizer':
-            sizer = mk_sizer(c, StubBroker(c['equity'], c['fee']))
+            stub = StubBroker(c['equity'], c['fee'])
+            sizer = mk_sizer(c, stub)
             for wv in c.get('warmup_calls', []):
+                stub.equity = c['equity'] * 3 + 1000.0          # and another equity, at the same timestamp
                 # earlier sizings on the same sizer object (other asset sets): they must not influence this one
                 try:
                     sizer(ts(0), dict((a, w) for a, w in wv))
                 except Exception:
                     pass
+            stub.equity = c['equity']
             r = sizer(ts(0), dict((a, w) for a, w in c['weights']))
             return ['ok', [[a, num(v['quantity'])] for a, v in r.items()], [type(v['quantity']).__name__ for v in r.values()]]
         if op == 'universe':
